@@ -35,6 +35,7 @@ type run struct {
 	Shards     int    // processes (0/1 = one)
 	OneCPU     bool   // GOMAXPROCS=1 per process
 	Tiers      string // "" both, or "thorough"
+	Carry      bool   // overlay carry-instrumented fiat sources (C01, C02); dropped if it does not build
 }
 
 var plans = map[string][]run{
@@ -52,6 +53,8 @@ var plans = map[string][]run{
 		{Name: "sched-purego", Tags: []string{"verifsched", "purego"}, Instrument: "sched", Shards: 8, OneCPU: true},
 		{Name: "race-purego", Tags: []string{"verifrace", "purego"}, Race: true},
 	},
+	"C01": {{Name: "default", Carry: true}},
+	"C02": {{Name: "default", Carry: true}},
 	"C05": {
 		{Name: "asm"},
 		{Name: "purego", Tags: []string{"purego"}},
@@ -112,6 +115,22 @@ func build(id string, r run, work string) (bin string, skipped []string) {
 				ov[k] = v
 			}
 		}
+		carryOn := false
+		if r.Carry && !skip["carry-instrumentation"] {
+			files, err := instr.InstrumentCarries(repo, filepath.Join(work, "instr-carry-"+r.Name))
+			if err != nil {
+				fmt.Fprintf(os.Stderr, "vdriver: carry instrumentation not applicable to the current tree (%v); dropped\n", err)
+				skip["carry-instrumentation"] = true
+			} else {
+				carryOn = true
+				for k, v := range files {
+					ov[k] = v
+				}
+			}
+		}
+		if !carryOn { // the accessor of the carry counters only exists with the instrumented fiat sources
+			delete(ov, filepath.Join(repo, "zz_verif_opt_carry.go"))
+		}
 		if r.LookupRef {
 			dst := filepath.Join(work, "zz_verif_gen_lookupref.go")
 			if err := instr.GenLookupRef(filepath.Join(repo, "point_mul_table_ref.go"), dst); err != nil {
@@ -154,6 +173,11 @@ func build(id string, r run, work string) (bin string, skipped []string) {
 				fmt.Fprintf(os.Stderr, "vdriver: optional hook %s does not compile against the current tree; dropped\n", m)
 				break
 			}
+		}
+		if !dropped && r.Carry && !skip["carry-instrumentation"] {
+			skip["carry-instrumentation"] = true
+			dropped = true
+			fmt.Fprintln(os.Stderr, "vdriver: the carry-instrumented fiat sources do not build against the current tree; dropped")
 		}
 		if !dropped {
 			fmt.Fprintln(os.Stderr, out.String())
